@@ -216,11 +216,16 @@ CHECKS["C06"] = ("proof",
     "Deductive: CKDpriv/CKDpub message construction (hardened threshold, 0x00||ser256(k)||ser32(i) vs serP(K)||ser32(i)), child key "
     "plumbing, N(CKDpriv) = CKDpub(N) for non-hardened indices, master key from seed, the 78-byte extended-key layout and its decoder "
     "(inverse, version dispatch, padding byte), Base58Check framing (checksum accepted exactly when right), address construction and "
-    "classification, ensure_address_gap generating exactly gap - existing_gap keys at consecutive indices, per-account chain keys. "
-    "Bounded (labelled): Base58 and mnemonic numeral loops vs independent encoders, published BIP32 vectors 1-3, an own pure-Python "
+    "classification, ensure_address_gap generating exactly gap - existing_gap keys at consecutive indices, per-account chain keys; "
+    "the REAL bodies of Base58.decode / char_value and Base58.encode for strings of ANY length by loop invariants and recursive spec "
+    "functions (decode = one zero byte per leading '1' + bytes of the Horner value, Base58Error exactly for empty / foreign characters; "
+    "encode read backwards = base-58 digits of the value, least significant first, then one '1' per leading zero byte). "
+    "Bounded (labelled): Base58 round trip and mnemonic numeral loops vs independent encoders, published BIP32 vectors 1-3, an own pure-Python "
     "secp256k1/BIP32 reference on 4 seeds x 9 paths, real accounts regenerating the same addresses.",
-    "Trusted: HMAC-SHA512/SHA-256/RIPEMD-160 uninterpreted, coincurve operations with one group-law instance, the modular contract "
-    "of Base58.encode/decode (checked bounded only), DB returns address rows by n descending. Elliptic-curve arithmetic not decided.",
+    "Trusted: HMAC-SHA512/SHA-256/RIPEMD-160 uninterpreted, coincurve operations with one group-law instance, bytes_to_int / "
+    "int_to_bytes by their big-endian contract (checked bounded), s[::-1] as reversal (involution and length axioms), the inductive "
+    "step from the two Base58 spec functions to decode(encode(b)) == b (used modularly by the framing proofs; checked bounded only), "
+    "DB returns address rows by n descending. Elliptic-curve arithmetic not decided.",
     "symbolic execution of the real AST with uninterpreted crypto, VCs by z3/cvc5; bounded differential vs reference implementations", "3 C06")
 NOT_YET = {}
 
